@@ -8,6 +8,15 @@ import (
 	"github.com/simimpact/srsim/pkg/model"
 )
 
+// the order in which the formula terms of a shield are summed
+var shieldFormulaOrder = [...]model.ShieldFormula{
+	model.ShieldFormula_SHIELD_BY_SHIELDER_ATK,
+	model.ShieldFormula_SHIELD_BY_SHIELDER_DEF,
+	model.ShieldFormula_SHIELD_BY_SHIELDER_MAX_HP,
+	model.ShieldFormula_SHIELD_BY_TARGET_MAX_HP,
+	model.ShieldFormula_SHIELD_BY_SHIELDER_TOTAL_SHIELD,
+}
+
 func (mgr *Manager) AddShield(id key.Shield, shield info.Shield) {
 	// Get the stats for the source and target
 	source := mgr.attr.Stats(shield.Source)
@@ -17,7 +26,13 @@ func (mgr *Manager) AddShield(id key.Shield, shield info.Shield) {
 	// Compute shield baseHP from ShieldMap property values
 	baseHP := 0.0
 
-	for k, v := range shield.BaseShield {
+	// Sum the terms in a fixed order: ranging over the map would make the float sum of three
+	// or more terms depend on the map iteration order of the run.
+	for _, k := range shieldFormulaOrder {
+		v, ok := shield.BaseShield[k]
+		if !ok {
+			continue
+		}
 		switch k {
 		case model.ShieldFormula_SHIELD_BY_SHIELDER_ATK:
 			baseHP += v * source.ATK()
